@@ -280,7 +280,7 @@ func cmdCheck(args []string) int {
 	{
 		kept := obls[:0]
 		for _, ob := range obls {
-			if ob.Cover && strings.Contains(ob.Name, "/cover(antecedent(") && !hasPropTag(ob.CoverTags, *prop) {
+			if ob.Cover && (strings.Contains(ob.Name, "/cover(antecedent(") || strings.Contains(ob.Name, "/varies(")) && !hasPropTag(ob.CoverTags, *prop) {
 				continue
 			}
 			kept = append(kept, ob)
@@ -371,6 +371,10 @@ func cmdCheck(args []string) int {
 				continue
 			}
 			if ob.Result.Status == "unsat" || ob.Result.Status == "error" {
+				if ob.Kind == "varies" {
+					fails = append(fails, failure{ob, "never happens: " + ob.Text})
+					continue
+				}
 				fails = append(fails, failure{ob, "vacuity guard: " + ob.Text + " is contradictory"})
 			} else if ob.Result.Status != "sat" {
 				coverUnconfirmed++
